@@ -33,7 +33,7 @@ def texts():
         for n in range(1, 4):
             out += [''.join(p) for p in itertools.product('a0x7!<', repeat=n)]
         out += ['<a>', '<x>', '!a', '!!a', '~a', 'a,0', 'a 0', ' a', 'l', 'z', 'da', '~~a', '!<a>', 'a0a0', '<a><x>', 'a,x,7', ' a b', 'a b ', 'a  0',
-                '(a)', '(x)', '(0)', '(7)', '[a]', '[x]', '[0]', '(l)', '(z)', '(a,a)', '(x,x)', '(a)(x)', '( a )', '(a', 'a,(a)', '(a),0', '<(a)>', '<(x)>', '<<(a)>>', '!a', '<(0)>', '<[a]>']
+                '(a)', '(x)', '(0)', '(7)', '[a]', '[x]', '[0]', '(l)', '(z)', '(a,a)', '(x,x)', '(a)(x)', '( a )', '(a', 'a,(a)', '(a),0', 'a;0', 'a;b', 'a,0;a', 'a ;0', ';a', 'a;', 'a,;0', '<(a)>', '<(x)>', '<<(a)>>', '!a', '<(0)>', '<[a]>']
         TEXTS = out
     return TEXTS
 
@@ -116,8 +116,9 @@ def gen_levels(rnd, depth, with_ignore):
         if not rules:
             rules['N9' + chr(96 + d)] = 'W'
         ign = None
-        if with_ignore and base_ign and rnd.random() < 0.4:
-            ign = rnd.choice(['ignore ","', 'ignore Cm = ","'])
+        if with_ignore and base_ign and rnd.random() < 0.5:
+            ch = ',;'[d - 1] if d <= 2 else ','              # every level ignores something of its own
+            ign = rnd.choice([f'ignore "{ch}"', f'ignore "{ch}"', f'ignore Cm{d} = "{ch}"'])
         lv = Level('abc'[d], rules, ign, lv, ignore_first=first)
         levels.append(lv)
     return levels
